@@ -1,6 +1,6 @@
 PLAN['C03'] = dict(
     level='exploration',
-    units=std_units('C03', [('asan', 'sdcz', 4500, 250000), ('asan-i64', 'sdcz', 1200, 50000)], chunk=100),
+    units=std_units('C03', [('asan', 'sdcz', 13500, 250000), ('asan-i64', 'sdcz', 3600, 50000)], chunk=100),
     rule='structure predicate (as the consumers ?gstrs/sp_?trsv/?PivotGrowth/?QuerySpace read SCformat/NCformat) on every factorization returned by ?gstrf (square, tall), ?gssv (NC/NR), ?gssvx (malloc / caller workspace, Equil) and ?gsisx (ILU option lattice); '
          'non-trivial = a multi-column supernode is present; distinct = hash(pattern, route, outcome)',
     counter_names=['multi-column supernodes seen', 'supernodes seen', 'max in-flight expansions in one factorization'],
